@@ -18,7 +18,7 @@ pub const DEF: PropDef = PropDef {
     run,
     replay,
     level: "exploration",
-    rule: "(1) differential across backends: for every handshake string and every suite both backends support (25519 x {ChaChaPoly, AESGCM} x {SHA256, SHA512}), the session transcript (all handshake messages with payloads, handshake hashes after every message, transport messages in both directions before and after synchronised rekeys (automatic; manual keys, automatic, the same manual keys again), stateless messages at high nonces) is computed for all 9 assignments of {default, ring-over-default fallback, default-over-ring fallback} to the two endpoints; all 9 transcripts must be byte-identical and every message must be accepted by the peer. (2) the complete fallback table: primitive kind in {rng, dh, hash, cipher} x every choice of that kind x availability in (preferred, fallback) in {00,01,10,11} using marker resolvers whose primitives carry a tag: the FallbackResolver yields Some iff at least one member does, and the tag shows the preferred member won; (3) nested fallbacks: ALL 16^3 availability vectors of three marker resolvers A, B, C combined as Fallback(Fallback(A,B),C) and Fallback(A,Fallback(B,C)): every kind and choice resolves to the first member in order A, B, C that provides it. Transport lengths in (1) include, per session, one entry of a ladder around 4 KiB / 9000 / 12 KiB / 16 KiB / 32 KiB / the maximum. Non-trivial = an assignment in which at least one endpoint uses ring primitives, or a table row; distinct by (name, suite, inputs) / row",
+    rule: "(1) differential across backends: for every handshake string, on a suite both backends support (25519 x {ChaChaPoly, AESGCM} x {SHA256, SHA512}) and on one of all 24 suites (where ring provides only some of the primitives - XChaChaPoly, BLAKE2, P-256 come from the fallback member), the session transcript (all handshake messages with payloads, handshake hashes after every message, transport messages in both directions before and after synchronised rekeys (automatic; manual keys, automatic, the same manual keys again), stateless messages at high nonces) is computed for all 9 assignments of {default, ring-over-default fallback, default-over-ring fallback} to the two endpoints; all 9 transcripts must be byte-identical and every message must be accepted by the peer. (2) the complete fallback table: primitive kind in {rng, dh, hash, cipher} x every choice of that kind x availability in (preferred, fallback) in {00,01,10,11} using marker resolvers whose primitives carry a tag: the FallbackResolver yields Some iff at least one member does, and the tag shows the preferred member won; (3) nested fallbacks: ALL 16^3 availability vectors of three marker resolvers A, B, C combined as Fallback(Fallback(A,B),C) and Fallback(A,Fallback(B,C)): every kind and choice resolves to the first member in order A, B, C that provides it. Transport lengths in (1) include, per session, one entry of a ladder around 4 KiB / 9000 / 12 KiB / 16 KiB / 32 KiB / the maximum. Non-trivial = an assignment in which at least one endpoint uses ring primitives, or a table row; distinct by (name, suite, inputs) / row",
     technique: "differential testing across crypto backends (transcript equality over all backend assignments) + exhaustive enumeration of the fallback-resolution table with marker resolvers",
     assumptions: &[],
     panic_is_violation: false,
@@ -156,7 +156,9 @@ fn transcript(spec: &SessionSpec, payload_classes: &[u8], fill: u64) -> Result<T
 fn oracle(c: &Case, acc: &mut Acc) -> CaseResult {
     match c {
         Case::Transcript { spec, payload_classes, fill } => {
-            ensure!(ring_covers(spec.suite) && spec.suite.dh == DhKind::X25519, "harness: suite not shared by both backends");
+            // suites ring covers completely, and suites it covers only in part (XChaChaPoly,
+            // BLAKE2, P-256): the fallback combinations must then hand out the default
+            // backend's primitive for the missing piece and nothing else changes on the wire
             let mut base_spec = spec.clone();
             base_spec.backend_i = Backend::Default;
             base_spec.backend_r = Backend::Default;
@@ -308,7 +310,8 @@ pub fn run(ctx: &Ctx) {
     let mut cases = Vec::new();
     for (ni, hs) in names.iter().enumerate() {
         for k in 0..ctx.tier.pick(2usize, 4) {
-            let suite = suites[(ni + k) % 4];
+            // k = 0: a suite both backends implement; k >= 1: any of the 24 suites
+            let suite = if k == 0 { suites[ni % 4] } else { all_suites()[(ni * 7 + k * 5) % 24] };
             let mut spec = SessionSpec::simple(hs.clone(), suite, mix(ctx.seed, (ni * 4 + k) as u64));
             spec.eph = if (ni + k) % 2 == 0 { EphMode::Rng } else { EphMode::Fixed };
             spec.prologue_len = [0usize, 33][(ni + k) % 2];
@@ -323,7 +326,8 @@ pub fn run(ctx: &Ctx) {
         || {
             let names = names.clone();
             (any::<u16>(), 0usize..4, any::<u64>(), prop::collection::vec(0u8..20, 1..4), any::<u64>(), 0usize..200, any::<bool>()).prop_map(move |(ni, si, seed, payload_classes, fill, pl, eph)| {
-                let mut spec = SessionSpec::simple(names[pick(ni, names.len())].clone(), shared_suites()[si], seed);
+                let suite = if seed % 3 == 0 { all_suites()[(seed / 3 % 24) as usize] } else { shared_suites()[si] };
+                let mut spec = SessionSpec::simple(names[pick(ni, names.len())].clone(), suite, seed);
                 spec.prologue_len = pl;
                 spec.eph = if eph { EphMode::Rng } else { EphMode::Fixed };
                 Case::Transcript { spec, payload_classes, fill }
